@@ -45,6 +45,8 @@ RLe(a, b)  == a[1] * b[2] <= b[1] * a[2]
 RMin(a, b) == IF RLe(a, b) THEN a ELSE b
 RMax(a, b) == IF RLe(a, b) THEN b ELSE a
 RIsInt(a)  == a[2] = 1
+\* numeric equality; use this instead of = when a component may be carried as a string
+REq(a, b)  == a = b
 RIsZero(a) == a[1] = 0
 RPos(a)    == a[1] > 0
 RNegative(a) == a[1] < 0
